@@ -123,9 +123,10 @@ impl Ledger {
             return Some(format!("an address that is the latest unexpired vote of only {} peers (< minimum {}) won", p, min));
         }
         for (b, c) in self.definite_rivals(s, qa) {
-            // "leads every rival by the clear-majority margin" (30 %): a rival with more than 70 % of
-            // the leader's votes (plus the rounding slack of one half) is not led by the margin
-            if c as f64 > 0.7 * p as f64 + 0.5 {
+            // "leads every rival by the clear-majority margin" (30 %): a rival with 70 % or more of
+            // the leader's votes is not led by the margin (p is an upper bound of the leader's
+            // count and c a lower bound of the rival's, so this never over-reports)
+            if 10 * c >= 7 * p {
                 return Some(format!("an address with {} votes won although rival {} has {} votes (within the clear-majority margin)", p, b, c));
             }
         }
@@ -752,6 +753,7 @@ pub fn main(args: &[String]) {
         }
         for (desc, step) in &r.failures {
             let sig: String = desc.chars().map(|c| if c.is_ascii_digit() { '#' } else { c }).collect();
+            let sig = { let mut t = sig; while t.contains("##") { t = t.replace("##", "#"); } t };
             let sig = format!("C17:{}", sig);
             if seen_sig.insert(sig.clone()) || only.is_some() {
                 let file = o.out.join(format!("failure_C17_{}_{}.json", part, idx));
